@@ -313,4 +313,11 @@ def dcopy(v):
         return Agg(v.kind, v.name, v.variant, [dcopy(f) for f in v.fields])
     if isinstance(v, CellV):
         return CellV(v.v[0])
+    if isinstance(v, VecV):
+        return VecV([dcopy(x) for x in v.items])
+    if isinstance(v, StringV):
+        return StringV(list(v.b))
+    if isinstance(v, MapV):
+        m = MapV(); m.kv = [(dcopy(k), dcopy(x)) for k, x in v.kv]
+        return m
     return v
